@@ -216,6 +216,7 @@ extern "C" int __wrap_walk_descents(cholmod_sparse *AtA_F, cholmod_dense *Atb_F,
 	if (ref.chosen == ref.n_alpha - 1 && !ref.ret) ctx.count("probe:no_step_reduced_residual");
 
 	// 1. reference executions of the same code: canonical schedule, same worker count; and one worker
+	ctx.crumb("walk_descents(canonical)|workers=%d", n_threads);
 	LsOut can = canonical_line_search(AtA_F, Atb_F, x, x_F, F, nF, nH1_in, residual_in, calcs_in, c, n_threads);
 	bool do_one = n_threads != 1 && (G.depth_direct || (G.line_searches % 4) == 1);
 	LsOut one;
@@ -898,6 +899,7 @@ struct SchedHarness : Harness {
 		psv_env_threads = workers;
 		psv_affinity_fails = plan.getb("affinity_fails") ? 1 : 0;
 		Race::enable(true);
+		ctx.crumb("exec|%s|workers=%d", depth.c_str(), workers);
 		ctx.log.ev("plan depth=%s workers=%d policy=%s", depth.c_str(), workers, sc.policy.c_str());
 		ctx.count("depth:" + depth);
 		ctx.count("workers:" + std::to_string(workers));
